@@ -31,7 +31,7 @@ def shards(tier, seed):
 
 def universe(seed, uid):
     rng = core.rng_for(seed, PROP, 'uni%d' % uid)
-    o = gen.Opts(attrs=False, nested_arrays=0.0, max_types=4)
+    o = gen.Opts(attrs=False, nested_arrays=0.0, max_types=4, styles=('wrapped', 'wrapped', 'wrapped', 'bare', 'out_bare', 'out_bare', 'empty'))
     return gen.rand_universe(rng, o, uid=uid)
 
 
@@ -168,11 +168,14 @@ def run_universe(R, seed, uid, tier):
                     if outcome == 'fault':
                         B.raises[md['name']] = Fault('Client.Generated.%d' % k, 'raised %d' % k)
                     elif outcome == 'ignored':
-                        val = Ignored(val) if val is not None and len(sp) == 1 else val
+                        if not sp:
+                            val = Ignored('nothing', n=k)          # a method without return values may still hand back Ignored
+                        else:
+                            val = Ignored(val) if val is not None and len(sp) == 1 else val
                     elif outcome == 'generator' and len(sp) == 1 and isinstance(sp[0], list) and ('array' in md['returns'][0] or 'seq' in md['returns'][0]):
                         val = (lambda items: (x for x in items))(sp[0])
                     B.returns[md['name']] = val
-                is_ignored = outcome == 'ignored' and len(rets) == 1 and rets[0] is not None
+                is_ignored = outcome == 'ignored' and (not rets or (len(rets) == 1 and rets[0] is not None))
                 one_case(R, ir, Bn, null, wires, md, args, rets, outcome, is_ignored, repro, rng)
 
 
